@@ -21,6 +21,8 @@ type GenCfg struct {
 	Initial *Node
 	// DropFailingMutations: mutating ops that the model refuses (or leaves open) are not emitted.
 	DropFailingMutations bool
+	// KeepFailingPct: with DropFailingMutations, keep a model-refused (Err == Yes) mutation with this probability.
+	KeepFailingPct int
 	// Hook lets a property veto/adjust an op after drawing (return false to drop it).
 	Hook func(m *Model, op *Op) bool
 }
@@ -32,7 +34,7 @@ var defaultWeights = map[string]int{"WriteFile": 14, "Writer": 8, "MkdirAll": 8,
 	"CopyFile": 5, "CopyDirectory": 5, "ReadDir": 7, "IsExist": 4, "IsFile": 3, "IsDir": 3, "ReadFile": 7, "Reader": 4, "Lstat": 4, "Filespace": 4}
 
 var namePool = []string{"a", "b", "c", "d"}
-var oddPool = []string{"...", ".h", "a.b", "a b", "é", "-x", "A"}
+var oddPool = []string{"...", ".h", "a.b", "a b", "é", "-x", "A", ".a", ".cfg", "..a", "a.", "_"}
 
 type gen struct {
 	rt  *rapid.T
@@ -339,7 +341,9 @@ func GenHistory(rt *rapid.T, cfg GenCfg) []Op {
 			continue
 		}
 		if cfg.DropFailingMutations && Mutating(op.Op) && e.Err != No {
-			continue // the model is unchanged by a refused op
+			if !(e.Err == Yes && cfg.KeepFailingPct > 0 && hx.Chance(rt, cfg.KeepFailingPct, "keepfail")) {
+				continue // the model is unchanged by a refused op
+			}
 		}
 		ops = append(ops, op)
 	}
